@@ -84,8 +84,19 @@ cos = _mathfun_real(math.cos, cmath.cos)
 sin = _mathfun_real(math.sin, cmath.sin)
 tan = _mathfun_real(math.tan, cmath.tan)
 
-acos = _mathfun(math.acos, cmath.acos)
-asin = _mathfun(math.asin, cmath.asin)
+def _real_axis_cut(z):
+    # Real arguments with |x| > 1 lie on the branch cuts of acos and asin.
+    # mp has no signed zeros and continues from below for x > 1 and from
+    # above for x < -1; cmath would pick the side from the sign of the zero
+    # imaginary part (giving the conjugate value for x > 1).
+    if z.imag == 0 and abs(z.real) > 1:
+        if z.real > 0:
+            return complex(z.real, -0.0)
+        return complex(z.real, 0.0)
+    return z
+
+acos = _mathfun(math.acos, lambda z: cmath.acos(_real_axis_cut(z)))
+asin = _mathfun(math.asin, lambda z: cmath.asin(_real_axis_cut(z)))
 atan = _mathfun_real(math.atan, cmath.atan)
 
 cosh = _mathfun_real(math.cosh, cmath.cosh)
